@@ -1360,8 +1360,13 @@ class Kconfig(object):
                 # present_in_current_sdkconfig: In order to detect config options which are set multiple times
                 #           in a single file, we must reset the present_in_current_sdkconfig flag for all symbols
                 #           and choices every time we are loading the file.
+                # _sdkconfig_value/_loaded_as_default: a replacing load of the main sdkconfig defines the
+                #           new on-disk baseline; symbols the file does not mention have none.
                 for sym in self.unique_defined_syms:
                     sym._was_set = False
+                    if is_main_sdkconfig:
+                        sym._sdkconfig_value = None
+                        sym._loaded_as_default = False
 
                 for choice in self.unique_choices:
                     choice._was_set = False
